@@ -147,14 +147,15 @@ fn outline_of(s: P) -> Outline {
 fn wrap_mode(p: &Program) -> usize {
     (p.insts.len() + 2 * p.cells.len() + p.listing.first().copied().unwrap_or(0)) % 3
 }
-fn build(p: &Program) -> (tet::library::Library, Vec<Ptr<Instance>>, Ptr<Cell>) {
-    let mut lib = tet::library::Library::new("plib");
-    let cells: Vec<Ptr<Cell>> = p.cells.iter().enumerate().map(|(i, s)| lib.cells.add(Cell::from(Layout::new(format!("c{}", i), 0, outline_of(*s))))).collect();
+/// The twin of the program cell: same instance names, same relations, every absolute root moved by
+/// this much. Placing it in the same library shows state leaking from one cell's placement to the next.
+const TWIN_SHIFT: P = (1000, 2000);
+fn program_layout(p: &Program, name: &str, cells: &[Ptr<Cell>], shift: P) -> Layout {
     let insts: Vec<Ptr<Instance>> = p
         .insts
         .iter()
         .enumerate()
-        .map(|(i, m)| Ptr::new(Instance { inst_name: format!("i{}", i), cell: cells[m.cell].clone(), loc: (m.abs.0 as isize, m.abs.1 as isize).into(), reflect_horiz: m.rh, reflect_vert: m.rv }))
+        .map(|(i, m)| Ptr::new(Instance { inst_name: format!("i{}", i), cell: cells[m.cell].clone(), loc: ((m.abs.0 + shift.0) as isize, (m.abs.1 + shift.1) as isize).into(), reflect_horiz: m.rh, reflect_vert: m.rv }))
         .collect();
     for (i, m) in p.insts.iter().enumerate() {
         if let Some(r) = &m.rel {
@@ -172,10 +173,21 @@ fn build(p: &Program) -> (tet::library::Library, Vec<Ptr<Instance>>, Ptr<Cell>) 
             insts[i].write().unwrap().loc = Place::Rel(RelativePlace { to: Placeable::Instance(insts[r.to].clone()), side: r.side.to(), align: Align::Side(r.align.to()), sep });
         }
     }
-    let mut top = Layout::new("top", 0, Outline::rect(100_000, 100_000).unwrap());
-    for &i in &p.listing {
-        top.instances.push(insts[i].clone());
+    let mut top = Layout::new(name, 0, Outline::rect(100_000, 100_000).unwrap());
+    for (k, &i) in p.listing.iter().enumerate() {
+        // every fourth instance is handed over through the layout's list of placeable objects
+        if (k + p.insts.len()) % 4 == 3 {
+            top.places.push(Placeable::Instance(insts[i].clone()));
+        } else {
+            top.instances.push(insts[i].clone());
+        }
     }
+    top
+}
+fn build(p: &Program) -> (tet::library::Library, Ptr<Cell>, Ptr<Cell>) {
+    let mut lib = tet::library::Library::new("plib");
+    let cells: Vec<Ptr<Cell>> = p.cells.iter().enumerate().map(|(i, s)| lib.cells.add(Cell::from(Layout::new(format!("c{}", i), 0, outline_of(*s))))).collect();
+    let top = program_layout(p, "top", &cells, (0, 0));
     let top = match wrap_mode(p) {
         0 => lib.cells.add(Cell::from(top)),
         mode => {
@@ -189,22 +201,35 @@ fn build(p: &Program) -> (tet::library::Library, Vec<Ptr<Instance>>, Ptr<Cell>) 
             top
         }
     };
-    (lib, insts, top)
+    let twin = lib.cells.add(Cell::from(program_layout(p, "twin", &cells, TWIN_SHIFT)));
+    (lib, top, twin)
 }
 /// Place and read back (name -> (loc, boundbox))
 fn place(p: &Program) -> Result<BTreeMap<String, (P, BB)>, String> {
-    let (lib, _, top) = build(p);
+    let (lib, top, twin) = build(p);
     let (_lib, _) = tet::placer::Placer::place(lib, empty_stack()).map_err(|e| format!("{:?}", e))?;
-    let top = top.read().unwrap();
+    let a = read_back(&top, (0, 0))?;
+    let b = read_back(&twin, TWIN_SHIFT)?;
+    if a != b {
+        return Err(format!("two cells holding the same program (the second with every absolute location moved by {:?}) were placed differently: {:?} vs, moved back, {:?}", TWIN_SHIFT, a, b));
+    }
+    Ok(a)
+}
+fn read_back(cell: &Ptr<Cell>, shift: P) -> Result<BTreeMap<String, (P, BB)>, String> {
+    let top = cell.read().unwrap();
+    let lay = top.layout.as_ref().unwrap();
+    if !lay.places.is_empty() {
+        return Err(format!("{} placeable objects left unplaced in cell {}", lay.places.len(), top.name));
+    }
     let mut out = BTreeMap::new();
-    for ip in top.layout.as_ref().unwrap().instances.iter() {
+    for ip in lay.instances.iter() {
         let inst = ip.read().unwrap();
         let loc = match &inst.loc {
-            Place::Abs(xy) => (xy.x.num as i64, xy.y.num as i64),
+            Place::Abs(xy) => (xy.x.num as i64 - shift.0, xy.y.num as i64 - shift.1),
             Place::Rel(_) => return Err(format!("instance {} still has a relative location after placement", inst.inst_name)),
         };
         let bb = inst.boundbox().map_err(|e| format!("{:?}", e))?;
-        let bb = BB { x0: bb.p0.x.num as i64, y0: bb.p0.y.num as i64, x1: bb.p1.x.num as i64, y1: bb.p1.y.num as i64 };
+        let bb = BB { x0: bb.p0.x.num as i64 - shift.0, y0: bb.p0.y.num as i64 - shift.1, x1: bb.p1.x.num as i64 - shift.0, y1: bb.p1.y.num as i64 - shift.1 };
         if out.insert(inst.inst_name.clone(), (loc, bb)).is_some() {
             return Err(format!("instance {} appears twice after placement", inst.inst_name));
         }
